@@ -97,3 +97,20 @@ Proof.
   - apply no_later_sig_empty.
   - inversion C; subst. eauto.
 Qed.
+
+(* ---------- the known finding D22: the hypothesis no_locator_before is not idle.
+   A one-entry archive whose name ends in "PK\006\007" + 16 bytes: the writer model finishes it, the reader model
+   refuses it (it takes the name's tail for a ZIP64 locator).  The same program on the crate behaves the same
+   (evidence/C01.json, KNOWN-FINDING line). *)
+From ZipV Require Import Spec.Crc32Spec.
+Definition d22_name : bytes := [x78; x50; x4b; x06; x07; x30; x31; x32; x33; x34; x35; x36; x37; x38; x39; x61; x62; x63; x64; x65; x66].
+Definition d22_opts : wopts :=
+  {| o_method := CompressionMethod_Stored; o_level := None; o_time := DateTime_default; o_perm := None; o_large := false; o_encrypt := None |}.
+Example C01_locator_blind_spot :
+  let enc := fun (_ : CompressionMethod) (_ : Z) (x : bytes) => x in
+  let '(s1, r1) := start_file enc crc32 (new_writer []) d22_name d22_opts in
+  let '(s2, r2) := zw_write_all s1 [x64; x61; x74; x61] in
+  let '(s3, r3) := finish enc crc32 s2 in
+  r1 = Ok tt /\ r2 = Ok tt /\
+  match r3 with Ok data => open data = Err (EUnsupported MMultiDisk) | _ => False end.
+Proof. vm_compute. repeat split. Qed.
